@@ -55,6 +55,9 @@ def run(chk, tier):
     db = D.load("checks")
     from ..rules import params as _PR
     _PR.check(chk, db, ['_functional/', '_tuple/', '_utility/pair'], floor=40)
+    from ..rules import sibs as _SB
+    _SB.check(chk, db, ['_functional/', '_tuple/', '_utility/pair'])      # SIB: cv/ref-qualified overloads of one member agree
+    _SB.positive_control(chk)
     n = 0
     for rec, name, neg in WRAPPERS:
         if rec:
@@ -84,6 +87,21 @@ def run(chk, tier):
     # SRC: copying an inplace_function leaves the source callable alive (no relocation slot on a const source)
     if L.const_source_rule(chk, db, L.slot_signatures(db), "SRC") < 2:
         chk.analysis_broken("SRC: fewer than 2 copying members of inplace_function found")
+    # LIFE / L5: the target of an inplace_function is constructed over dead storage only, destroyed once, and an assignment
+    # whose source aliases *this does not read a destroyed target (same analysis as C03, owner inplace_function only)
+    from . import c03 as _c03
+    owner = next((o for o in _c03.OWNERS if o.startswith("etl::inplace_function")), "etl::inplace_function")
+    state = L.state_fields(db, owner)
+    nlife = 0
+    if not db.rec_by_q.get(owner) or not state:
+        chk.analysis_broken("LIFE: owner %s or its liveness state is no longer derivable" % owner)
+    else:
+        sg = L.slot_signatures(db)
+        for f in L.member_functions(db, owner):
+            _c03.analyse_function(chk, db, sg, owner, _c03.OWNERS[owner], owner, f, state)
+            nlife += 1
+        if nlife < 8:
+            chk.analysis_broken("LIFE: only %d members of %s analysed (floor 8)" % (nlife, owner))
     nrel = rel.check(chk, db, ["_utility/pair.hpp", "_tuple/tuple.hpp", "_functional/inplace_function.hpp"])
     if nrel < 9:
         chk.analysis_broken("REL: only %d pair/tuple/function operators modelled" % nrel)
